@@ -255,7 +255,29 @@ func ruleFreeIsError(c *eng.Ctx) {
 		c.Undec(R, "reader.(*Reader).GetObject", token.NoPos, "anchor not found")
 		return
 	}
-	loads := eng.CallsNamed(fn, false, "reader.(*Reader).getCompressedObject", "reader.(*Reader).getUncompressedObject")
+	type loadSite struct {
+		ssa.CallInstruction
+		target string
+	}
+	var loads []loadSite
+	for _, ci := range eng.CallsNamed(fn, false, "reader.(*Reader).getCompressedObject", "reader.(*Reader).getUncompressedObject") {
+		loads = append(loads, loadSite{ci, eng.CalleeName(ci)})
+	}
+	if len(loads) == 0 {
+		// the loader picked from a table of method values keyed by the entry type
+		for _, ci := range eng.Calls(fn, false, func(string, ssa.CallInstruction) bool { return true }) {
+			if eng.StaticCallee(ci) != nil {
+				continue
+			}
+			if cands, ok := eng.DynCallees(ci); ok {
+				for _, g := range cands {
+					if n := eng.FuncName(g); n == "reader.(*Reader).getCompressedObject" || n == "reader.(*Reader).getUncompressedObject" {
+						loads = append(loads, loadSite{ci, n})
+					}
+				}
+			}
+		}
+	}
 	if len(loads) == 0 {
 		c.Viol(R, "reader.(*Reader).GetObject#loads", fn.Pos(), "GetObject no longer loads objects through getCompressedObject/getUncompressedObject")
 		return
@@ -290,7 +312,7 @@ func ruleFreeIsError(c *eng.Ctx) {
 			}
 			return false
 		})
-		key := "reader.(*Reader).GetObject#" + strings.TrimPrefix(eng.CalleeName(ld), "reader.(*Reader).")
+		key := "reader.(*Reader).GetObject#" + strings.TrimPrefix(ld.target, "reader.(*Reader).")
 		c.Check(inUse, R, key+"/in-use", ld.Pos(), "dominated by entry.InUse", "an object whose newest xref entry is free can be loaded (no in-use test dominates the load): deleted objects come back")
 		c.Check(found, R, key+"/found", ld.Pos(), "dominated by the xref lookup's ok", "the load is not dominated by a successful xref lookup")
 	}
